@@ -125,6 +125,18 @@ func (s *DisabledExp) filter(t Type, lookup *TypeLookup) (Exp, error) {
 	return s.makeDisabledExp(s.Disabled, inner)
 }
 
+// orInner returns s, or inner if s is nil.
+//
+// makeDisabledExp may be called on a nil receiver.  When it fails, it must
+// still not return a nil *DisabledExp wrapped in a non-nil Exp, because the
+// callers collect the error and keep going with the expression.
+func (s *DisabledExp) orInner(inner Exp) Exp {
+	if s == nil {
+		return inner
+	}
+	return s
+}
+
 func (s *DisabledExp) makeDisabledExp(disable, inner Exp) (Exp, error) {
 	if n, ok := inner.(*NullExp); ok {
 		return n, nil
@@ -151,7 +163,7 @@ func (s *DisabledExp) makeDisabledExp(disable, inner Exp) (Exp, error) {
 			Disabled: disable,
 		}, nil
 	case *DisabledExp:
-		return s, &IncompatibleTypeError{
+		return s.orInner(inner), &IncompatibleTypeError{
 			Message: "disabled modifier cannot be bound to a value that may be null",
 		}
 	case *SplitExp:
@@ -182,7 +194,7 @@ func (s *DisabledExp) makeDisabledExp(disable, inner Exp) (Exp, error) {
 				var err error
 				arr[i], err = s.makeDisabledExp(dvi, inner)
 				if err != nil {
-					return s, err
+					return s.orInner(inner), err
 				}
 			}
 			return &SplitExp{
@@ -216,7 +228,7 @@ func (s *DisabledExp) makeDisabledExp(disable, inner Exp) (Exp, error) {
 				var err error
 				m[k], err = s.makeDisabledExp(dvi, inner)
 				if err != nil {
-					return s, err
+					return s.orInner(inner), err
 				}
 			}
 			return &SplitExp{
@@ -241,7 +253,7 @@ func (s *DisabledExp) makeDisabledExp(disable, inner Exp) (Exp, error) {
 			}, nil
 		}
 	}
-	return nil, &IncompatibleTypeError{
+	return s.orInner(inner), &IncompatibleTypeError{
 		Message: "disabled modifier cannot be bound to an expression of type " +
 			string(disable.getKind()),
 	}
